@@ -38,8 +38,8 @@ func init() {
 type c13Case struct {
 	Call    string `json:"call"`
 	Pattern string `json:"pattern"`
-	Step    int    `json:"step"`   // the pattern applies from this send of the call onward
-	Once    bool   `json:"once"`   // ... or only at that send
+	Step    int    `json:"step"`    // the pattern applies from this send of the call onward
+	Once    bool   `json:"once"`    // ... or only at that send
 	DeadMS  int    `json:"dead_ms"` // context deadline (virtual or real); per-attempt timeout is 1000 ms virtual / 100 ms real
 	Expired bool   `json:"expired"` // context already expired at entry
 	Real    bool   `json:"real"`
@@ -172,12 +172,12 @@ func c13Virtual(c c13Case) (key, msg, outcome string) {
 			err, valid = c13Run(c.Call, w.Conn, cfg.Password, func() context.Context {
 				return w.Ctx
 			}, func() {
-			// the fault window and the clock start with the call under test
-			started = true
-			w.T.Clock = clock
-			w.Ctx, w.Cancel = newCtx()
-			clock.Cancel = w.Cancel
-			backoff.VerifSleep = w.T.Sleep
+				// the fault window and the clock start with the call under test
+				started = true
+				w.T.Clock = clock
+				w.Ctx, w.Cancel = newCtx()
+				clock.Cancel = w.Cancel
+				backoff.VerifSleep = w.T.Sleep
 				if c.Expired {
 					clock.Expire()
 				}
